@@ -72,6 +72,27 @@ fn main() {
     check(&dir);
 }
 
+/// A worker and the analysis threads it spawns strictly alternate, so they share one CPU: a
+/// reply then costs a context switch instead of a cross-CPU wake-up (5x faster in the sandbox).
+fn pin_to_cpu(i: usize) {
+    let cpus = std::thread::available_parallelism().map_or(1, |n| n.get());
+    unsafe {
+        let mut set: libc::cpu_set_t = std::mem::zeroed();
+        libc::CPU_SET(i % cpus, &mut set);
+        libc::sched_setaffinity(0, std::mem::size_of::<libc::cpu_set_t>(), &set);
+    }
+}
+
+fn unpin() {
+    unsafe {
+        let mut set: libc::cpu_set_t = std::mem::zeroed();
+        for c in 0..libc::CPU_SETSIZE as usize {
+            libc::CPU_SET(c, &mut set);
+        }
+        libc::sched_setaffinity(0, std::mem::size_of::<libc::cpu_set_t>(), &set);
+    }
+}
+
 fn ls_path() -> PathBuf {
     let p = PathBuf::from(std::env::var("VERIF_LELWEL_LS").unwrap_or_else(|_| {
         vcommon::machinery_failure("VERIF_LELWEL_LS is not set (run through /verif/check C20)")
@@ -115,6 +136,7 @@ fn follow_up_base(doc: usize, ti: usize, r: &Option<Req>) -> Vec<Event> {
 
 fn worker(dir: &Path, spec: &str) {
     let (i, n) = spec.split_once('/').map(|(a, b)| (a.parse::<usize>().unwrap(), b.parse::<usize>().unwrap())).unwrap();
+    pin_to_cpu(i);
     let depth: usize = arg_after("--depth").unwrap().parse().unwrap();
     let full_sweep_depth: usize = arg_after("--full-sweep-depth").unwrap().parse().unwrap();
     let out = arg_after("--out").unwrap();
@@ -216,7 +238,8 @@ fn follow_up_sessions(uris: &[lsp_types::Url; 2], tabs: &Tables, doc: usize, ti:
     let origin = origin_key(&origin_ev, &origin_out);
     let req_step = |d: usize, t: &'static str, r: &Req| Step {
         event: Event::Request { doc: d, req: r.clone() },
-        expect: tabs.of(d, t).get(r).and_then(|o| o.reply.as_ref().map(|r| r.to_json())),
+        // no comparison where the in-process step itself did not end cleanly
+        expect: tabs.of(d, t).get(r).filter(|o| o.clean()).and_then(|o| o.reply.as_ref().map(|r| r.to_json())),
         idle_after: true,
     };
     let base = |pre: Vec<Event>| -> Vec<Step> {
@@ -251,14 +274,27 @@ struct StdioTotals {
 }
 
 fn run_sessions<F: Fn(usize) -> Vec<Session> + Sync>(ls: &Path, uris: &[lsp_types::Url; 2], n: usize, make: F, bag: &mut Bag, tot: &mut StdioTotals) {
+    // a machinery failure stops the remaining sessions; those in flight end normally, so no
+    // server process is left behind
+    let failed: std::sync::Mutex<Option<String>> = std::sync::Mutex::new(None);
     let results: Vec<(u64, u64, u64, Vec<Violation>)> = (0..n)
         .into_par_iter()
         .map(|k| {
             let (mut sessions, mut compared, mut died, mut vs) = (0, 0, 0, vec![]);
             for s in make(k) {
                 for pacing in [Pacing::Burst, Pacing::LockStep] {
-                    let r = stdio::run_session(ls, uris, &s, pacing)
-                        .unwrap_or_else(|e| vcommon::machinery_failure(&format!("stdio session failed: {e}")));
+                    if failed.lock().unwrap().is_some() {
+                        return (sessions, compared, died, vs);
+                    }
+                    let r = match stdio::run_session(ls, uris, &s, pacing) {
+                        Ok(r) => r,
+                        Err(e) => {
+                            let evs: Vec<Event> = s.steps.iter().map(|st| st.event.clone()).collect();
+                            *failed.lock().unwrap() =
+                                Some(format!("stdio session ({pacing:?}) failed: {e}: {}", truncate(&history_short(&evs), 300)));
+                            return (sessions, compared, died, vs);
+                        }
+                    };
                     sessions += 1;
                     compared += r.compared;
                     died += r.died as u64;
@@ -275,6 +311,9 @@ fn run_sessions<F: Fn(usize) -> Vec<Session> + Sync>(ls: &Path, uris: &[lsp_type
             (sessions, compared, died, vs)
         })
         .collect();
+    if let Some(e) = failed.into_inner().unwrap() {
+        vcommon::machinery_failure(&e);
+    }
     for (s, c, d, vs) in results {
         tot.sessions += s;
         tot.compared += c;
@@ -310,7 +349,8 @@ fn check(dir: &Path) {
     let uris = exec::doc_uris(dir);
     let t0 = std::time::Instant::now();
 
-    // 1. reference level
+    // 1. reference level (pinned like a worker; unpinned again before the thread pool starts)
+    pin_to_cpu(0);
     let infos: Vec<TextInfo> = ALPHABET.iter().map(|(_, t)| TextInfo::new(t)).collect();
     let mut bag = Bag::default();
     let mut cnt = Counters { transitions: 0, evaluations: 0, nontrivial: 0 };
@@ -326,9 +366,14 @@ fn check(dir: &Path) {
             }
         }
     }
+    unpin();
     let t_ref = t0.elapsed().as_secs_f64();
+    eprintln!("# reference level done after {t_ref:.1}s: {} suspicious (doc, text, request) triples", suspicious.len());
 
     // 2. + 3. history level and follow-ups in worker subprocesses
+    // (development aid: VLSP_SKIP=histories,sweeps,followups skips phases; the run is then not a verdict)
+    let skip = std::env::var("VLSP_SKIP").unwrap_or_default();
+    let depth = if skip.contains("histories") { 0 } else { tier.depth };
     let n_workers = std::thread::available_parallelism().map_or(4, |n| n.get()).min(16);
     let exe = std::env::current_exe().expect("current exe");
     let work = vcommon::verif_dir().join(".work");
@@ -337,7 +382,7 @@ fn check(dir: &Path) {
         let out = work.join(format!("vlsp-worker-{i}.json"));
         let _ = std::fs::remove_file(&out);
         let child = std::process::Command::new(&exe)
-            .args(["--worker", &format!("{i}/{n_workers}"), "--depth", &tier.depth.to_string()])
+            .args(["--worker", &format!("{i}/{n_workers}"), "--depth", &depth.to_string()])
             .args(["--full-sweep-depth", &tier.full_sweep_depth.to_string(), "--out"])
             .arg(&out)
             .spawn()
@@ -363,23 +408,25 @@ fn check(dir: &Path) {
         }
         let _ = std::fs::remove_file(&out);
     }
-    let planned = notification_histories(tier.depth).len() as u64;
+    let planned = notification_histories(depth).len() as u64;
     if histories != planned || follow_origins != suspicious.len() as u64 {
         vcommon::machinery_failure(&format!("workers executed {histories} of {planned} histories"));
     }
     let states: BTreeSet<[Option<&str>; 2]> =
         notification_histories(tier.depth.min(2)).iter().map(|h| final_state(h)).chain([[None, None]]).collect();
     let t_hist = t0.elapsed().as_secs_f64();
+    eprintln!("# {histories} notification histories + follow-ups done after {t_hist:.1}s");
 
     // 4. stdio replay
     let mut tot = StdioTotals { sessions: 0, compared: 0, died: 0 };
-    let stdio_hist = notification_histories(tier.stdio_depth);
+    let stdio_hist = notification_histories(if skip.contains("sweeps") { 0 } else { tier.stdio_depth });
     run_sessions(&ls, &uris, stdio_hist.len(), |k| sweep_session(&uris, &tabs, &stdio_hist[k]).into_iter().collect(), &mut bag, &mut tot);
     let t_sweep = t0.elapsed().as_secs_f64();
+    eprintln!("# stdio sweeps done after {t_sweep:.1}s: {} sessions, {} answers compared", tot.sessions, tot.compared);
     run_sessions(
         &ls,
         &uris,
-        suspicious.len(),
+        if skip.contains("followups") { 0 } else { suspicious.len() },
         |k| {
             let (doc, ti, r) = &suspicious[k];
             follow_up_sessions(&uris, &tabs, *doc, *ti, r)
@@ -435,7 +482,11 @@ fn check(dir: &Path) {
         "violation_keys": keys,
         "wall_s": {"reference": t_ref, "histories": t_hist - t_ref, "stdio_sweeps": t_sweep - t_hist, "stdio_follow_ups": t_all - t_sweep},
     });
-    std::process::exit(rep.finish(coverage));
+    let code = rep.finish(coverage);
+    if !skip.is_empty() {
+        vcommon::machinery_failure("VLSP_SKIP is set: partial run, no verdict");
+    }
+    std::process::exit(code);
 }
 
 fn truncate(s: &str, n: usize) -> String {
